@@ -759,3 +759,40 @@ fn c17_b_handle_tap_dance_neg() {
     let (r, _) = w.handle_tap_dance(1, 2, &mut q);
     assert!(r.is_none());
 }
+
+// =======================================================================================
+// C02  History: push / tick / iterate never panic, ages saturate, newest first
+// =======================================================================================
+#[kani::proof]
+#[kani::unwind(12)]
+fn c02_b_history() {
+    let mut h: History<u16> = History::new();
+    let n: usize = kani::any();
+    kani::assume(n <= 10); // more pushes than the capacity of 8: the oldest entries fall out
+    let mut i = 0;
+    while i < n {
+        h.push_front(i as u16);
+        h.tick_hist();
+        i += 1;
+    }
+    let mut k = 0usize;
+    for e in h.iter_hevents() {
+        // newest first, and each entry is as old as the number of ticks since it was pushed
+        assert!(e.event as usize == n - 1 - k);
+        assert!(e.ticks_since_occurrence as usize == k + 1);
+        k += 1;
+    }
+    assert!(k == if n < 8 { n } else { 8 });
+}
+
+/// ages saturate instead of overflowing
+#[kani::proof]
+#[kani::unwind(10)]
+fn c02_k_history_saturates() {
+    let mut h: History<u16> = History::new();
+    h.push_front(1);
+    h.ticks_since_occurrences[0] = kani::any();
+    let t0 = h.ticks_since_occurrences[0];
+    h.tick_hist();
+    assert!(h.ticks_since_occurrences[0] == t0.saturating_add(1));
+}
